@@ -13,7 +13,7 @@ import numpy as np
 from pyvc.arr import SymArr, havoc_array
 from pyvc.contract import Contract, register
 from pyvc.core import and_, ctx, is_sym, ite, not_, or_
-from pyvc.spec import All, Forall
+from pyvc.spec import All, Exists, Forall
 
 MS = "verde.model_selection"
 
@@ -131,7 +131,7 @@ class PartitionBySum(Contract):
         return (from_list([B.int("size%d" % k) for k in range(cfg["n"])], "i"), cfg["parts"]), {}
 
     def requires(self, a):
-        arr = a.array
+        arr = _as1d(a.array)
         return and_(*([arr.at(i) >= 1 for i in range(int(arr.shape[0]))] + [a.parts >= 2]))
 
     def raises(self, a):
@@ -147,7 +147,7 @@ class PartitionBySum(Contract):
                 yield (np.array(occ), parts), {}
 
     def ensures(self, a, r):
-        arr = a.array
+        arr = _as1d(a.array)
         n = int(arr.shape[0])
         vals = [arr.at(i) for i in range(n)]
         ok = isinstance(r, SymArr) and r.ndim == 1 and concrete_len(r) == a.parts - 1
@@ -175,6 +175,13 @@ class PartitionBySum(Contract):
         return out
 
 
+def _as1d(x):
+    """The array argument as the code sees it after np.atleast_1d(...).ravel() (a list of populations is accepted)."""
+    from pyvc.arr import as_array
+
+    return as_array(x)
+
+
 def concrete_len(arr):
     from pyvc.core import concrete_value
 
@@ -187,8 +194,181 @@ def _MayRaise(a):
     it is REQUIRED when parts > size (neg, proved on the normal exit: parts <= size)."""
     from pyvc.contract import RaiseCond
 
-    n = int(a.array.shape[0])
+    n = int(_as1d(a.array).shape[0])
     return RaiseCond(True, not (a.parts > n))
+
+
+# ----------------------------------------------------------------- deductive: BlockKFold's wiring
+
+
+def _block_split_labels(coordinates, spacing=None, adjust="spacing", region=None, shape=None):
+    raise NotImplementedError
+
+
+@register
+class BlockSplitLabels(Contract):
+    """Ghost recorder standing for block_split inside the wiring lemma: an arbitrary integer label per sample (what the
+    labels MEAN is block_split's own contract, discharged under C08)."""
+
+    target = "contracts.cv_c11:_block_split_labels"
+    cover_return = False
+
+    def configs(self, tier):
+        return []
+
+    def havoc(self, a):
+        n = a.coordinates[0].shape[0]
+        return (None, havoc_array("labels", (n,), "i"))
+
+    def ensures(self, a, r):
+        return {}
+
+
+class SymKFold:
+    """sklearn.model_selection.KFold(n_splits) without shuffling on a sequence of CONCRETE length: consecutive folds,
+    the first (n mod k) of size n // k + 1, the others n // k (documented behaviour; assumed)."""
+
+    def __init__(self, n_splits=5, shuffle=False, random_state=None):
+        from pyvc.core import Unsupported
+
+        if shuffle:
+            raise Unsupported("KFold(shuffle=True)")
+        self.n_splits = n_splits
+        ctx().used_prelude.add("sklearn KFold(n_splits).split: consecutive folds, sizes n//k (+1 for the first n%k)")
+
+    def split(self, X, y=None, groups=None):
+        from pyvc.arr import as_array, from_list
+        from pyvc.core import Unsupported, concrete_value
+
+        n = concrete_value(as_array(X).shape[0])
+        if n is None:
+            raise Unsupported("KFold.split of a sequence of symbolic length")
+        n, k = int(n), int(self.n_splits)
+        if k > n:
+            raise ValueError("Cannot have number of splits n_splits=%d greater than the number of samples: n_samples=%d." % (k, n))
+        sizes = [n // k + (1 if i < n % k else 0) for i in range(k)]
+        lo = 0
+        for sz in sizes:
+            test = list(range(lo, lo + sz))
+            train = [i for i in range(n) if i < lo or i >= lo + sz]
+            yield from_list(train, "i"), from_list(test, "i")
+            lo += sz
+
+
+def kfold_test_sets(cv, X):
+    """The test index sets of one BlockKFold.split(X), as the real generator yields them."""
+    return list(cv._iter_test_indices(X))
+
+
+@register
+class KFoldWiring(Contract):
+    """BlockKFold._iter_test_indices (REAL code) for an arbitrary number of samples with arbitrary labels, and a
+    structural bound: exactly G occupied blocks (G = 2..4). Proved: exactly n_splits test sets; every sample is in
+    exactly one of them; a test set is a union of WHOLE blocks (never splits a block); no test set is empty; and, when
+    balancing, the populations handed to partition_by_sum are - position by position - the populations of the blocks in
+    the (shuffled) order the folds are then cut from. The fold boundaries themselves come from partition_by_sum's /
+    KFold's contracts."""
+
+    target = "contracts.cv_c11:kfold_test_sets"
+    native_replay = False
+    cover_raise = True
+
+    def patch_modules(self, P):
+        import verde.model_selection as ms
+        from pyvc.contract import REGISTRY, default_patches, make_stub
+
+        default_patches(P, ms)
+        P.set(ms, "block_split", make_stub(REGISTRY["contracts.cv_c11:_block_split_labels"], "wiring"))
+        P.set(ms, "partition_by_sum", make_stub(REGISTRY["verde.utils:partition_by_sum"], "wiring"))
+        P.set(ms, "KFold", SymKFold)
+
+    def configs(self, tier):
+        out = []
+        for G in (2, 3, 4) if tier == "thorough" else (2, 3):
+            for k in range(2, G + 1):
+                for shuffle in (False, True):
+                    for balance in (True, False):
+                        out.append({"G": G, "n_splits": k, "shuffle": shuffle, "balance": balance})
+        out.append({"G": 2, "n_splits": 3, "shuffle": False, "balance": True})  # more folds than blocks: rejected
+        return out
+
+    def setup(self, B, cfg):
+        import verde
+
+        ctx().ghost["group_count_hint"] = cfg["G"]
+        cv = verde.BlockKFold.__new__(verde.BlockKFold)
+        cv.spacing, cv.shape, cv.n_splits = B.real("spacing"), None, cfg["n_splits"]
+        cv.shuffle, cv.random_state, cv.balance = cfg["shuffle"], B.int("seed"), cfg["balance"]
+        n = B.dim("n_samples", 1)
+        self._G = cfg["G"]
+        return (cv, B.array("X", (n, 2))), {}
+
+    def requires(self, a):
+        return a.cv.spacing > 0
+
+    def raises(self, a):
+        return [(ValueError, a.cv.n_splits > self._G)]
+
+    def ensures(self, a, r):
+        from pyvc.prelude_groupby import structure_of
+        from pyvc.prelude_index import SymIndexArr
+        from pyvc.sums import sum_tag_of
+        from pyvc.core import iff, implies
+
+        c = ctx()
+        G, k = self._G, a.cv.n_splits
+        n = a.X.shape[0]
+        out = {"exactly_n_splits_test_sets": isinstance(r, list) and len(r) == k and all(isinstance(t, SymIndexArr) for t in r)}
+        calls = c.ghost.get("contracts.cv_c11:_block_split_labels", [])
+        out["blocks_come_from_one_block_split_of_the_two_columns_with_the_estimators_spacing"] = len(calls) == 1
+        if not (out["exactly_n_splits_test_sets"] and len(calls) == 1):
+            return out
+        ba, (_, labels) = calls[0]
+        out["blocks_come_from_one_block_split_of_the_two_columns_with_the_estimators_spacing"] = (
+            ba.spacing is a.cv.spacing and ba.shape is None and ba.region is None and ba.adjust == "spacing"
+            and All(Forall((n,), lambda p: and_(ba.coordinates[0].at(p) == a.X.at(p, 0), ba.coordinates[1].at(p) == a.X.at(p, 1))))
+        )
+        lab = labels.snapshot()
+        mem = [t.iset.member for t in r]
+        out["index_sets_range_over_the_samples"] = and_(*[t.iset.n == n for t in r])
+        out["a_test_set_never_splits_a_block"] = All(*[Forall((n, n), lambda p, q, m=m: implies(lab(p) == lab(q), iff(m(p), m(q)))) for m in mem])
+        out["every_sample_is_tested_exactly_once"] = Forall((n,), lambda p: and_(or_(*[m(p) for m in mem]), *[not_(and_(mem[i](p), mem[j](p))) for i in range(k) for j in range(i + 1, k)]))
+        gs = structure_of(labels)
+        out["no_test_set_is_empty"] = All(*[Exists((n,), lambda p, m=m: m(p), witnesses=[(gs.rep(g),) for g in range(G)]) for m in mem])
+        # balancing: what partition_by_sum was given
+        sig = c.ghost.get("shuffle", [])
+        order = [s_ for s_ in sig[0][1]] if (a.cv.shuffle and len(sig) == 1) else list(range(G))
+        if a.cv.shuffle:
+            out["block_order_shuffled_exactly_once"] = len(sig) == 1
+        ids = [gs.key(t) for t in order]  # the block id at position t of the order the folds are cut from
+        pcalls = c.ghost.get("verde.utils:partition_by_sum", [])
+        if a.cv.balance:
+            sizes_seen = getattr(self, "_sizes_seen", None)
+        if a.cv.balance and len(pcalls) == 1:
+            pa, _ = pcalls[0]
+            from pyvc.arr import as_array
+
+            arr = as_array(pa.array)
+            okn = arr.ndim == 1 and not is_sym(arr.shape[0]) and int(arr.shape[0]) == G and pa.parts == k
+            out["partition_by_sum_gets_one_population_per_block_and_n_splits_parts"] = okn
+            if okn:
+                clauses = []
+                for t in range(G):
+                    tag = sum_tag_of(arr.at(t))
+                    if tag is None:
+                        clauses.append(False)
+                        continue
+                    clauses.append(All(tag.n == n, Forall((n,), lambda p, tag=tag, t=t: iff(_as_bool(tag.term(p)), lab(p) == ids[t]))))
+                out["population_at_position_t_is_that_of_the_block_at_position_t_of_the_fold_order"] = All(*clauses)
+        return out
+
+
+def _as_bool(v):
+    from pyvc.core import SymBool, SymNum
+
+    if isinstance(v, (SymBool, bool)):
+        return v
+    return v != 0
 
 
 # ----------------------------------------------------------------- bounded: the splitters
